@@ -506,6 +506,48 @@ C15_RA(add) C15_RA(subtract) C15_RA(multiply) C15_RA(divide)
 C15_RC(equal) C15_RC(not_equal) C15_RC(less) C15_RC(less_equal) C15_RC(greater) C15_RC(greater_equal)
 // clang-format on
 
+// ---- ratio typedefs / operation results handed over as TYPES (predefined SI typedefs as operands), constants by name
+template <class E, class S>
+constexpr auto R_alias() -> Res
+{
+    Res r;
+    r.ev  = E::num;
+    r.ev2 = E::den;
+    r.sv  = S::num;
+    r.sv2 = S::den;
+    r.st  = (r.ev == r.sv && r.ev2 == r.sv2) ? (std::is_same_v<typename E::type, etl::ratio<S::num, S::den>> ? OK : TYPE) : VALUE;
+    return r;
+}
+template <class E, class S>
+constexpr auto R_cmp() -> Res
+{
+    Res r;
+    r.ev = E::value ? 1 : 0;
+    r.sv = S::value ? 1 : 0;
+    r.st = r.ev == r.sv ? OK : VALUE;
+    return r;
+}
+template <class E, class S>
+constexpr auto X_const_alias() -> Res
+{
+    Res r;
+    r.ev = static_cast<long long>(E::value);
+    r.sv = static_cast<long long>(S::value);
+    bool ok = r.ev == r.sv && std::is_same_v<typename E::value_type, typename S::value_type>
+           && std::is_same_v<typename E::type, etl::integral_constant<typename S::value_type, S::value>>;
+    r.st = ok ? OK : VALUE;
+    return r;
+}
+template <long long E, long long S>
+constexpr auto X_value_eq() -> Res
+{
+    Res r;
+    r.ev = E;
+    r.sv = S;
+    r.st = E == S ? OK : VALUE;
+    return r;
+}
+
 // ---- _meta against hand expansion (expected type / value supplied by the generator)
 template <class L, class R>
 constexpr auto M_same() -> Res
